@@ -41,23 +41,23 @@ type vaCmd struct {
 	Data  []string `json:"data,omitempty"` // base64
 	N     int      `json:"n,omitempty"`
 	// stream
-	InputB64   string `json:"input_b64,omitempty"`
-	Gzip       bool   `json:"gzip,omitempty"`       // go through ProcessMongoLogFile with a mock FileReader and ext .gz
-	Chunk      int    `json:"chunk,omitempty"`      // reader chunk size (0 = as asked)
-	FailReadAt int    `json:"fail_read_at,omitempty"`  // k-th Read call fails (1-based; 0 = never)
-	FailReadOff int   `json:"fail_read_off,omitempty"` // fail once this many bytes were delivered (-1/0 = never)
-	FailWriteAt int   `json:"fail_write_at,omitempty"` // k-th Write call fails (1-based)
-	ShortWrite  int   `json:"short_write,omitempty"`   // failing write accepts this many bytes first
+	InputB64    string `json:"input_b64,omitempty"`
+	Gzip        bool   `json:"gzip,omitempty"`          // go through ProcessMongoLogFile with a mock FileReader and ext .gz
+	Chunk       int    `json:"chunk,omitempty"`         // reader chunk size (0 = as asked)
+	FailReadAt  int    `json:"fail_read_at,omitempty"`  // k-th Read call fails (1-based; 0 = never)
+	FailReadOff int    `json:"fail_read_off,omitempty"` // fail once this many bytes were delivered (-1/0 = never)
+	FailWriteAt int    `json:"fail_write_at,omitempty"` // k-th Write call fails (1-based)
+	ShortWrite  int    `json:"short_write,omitempty"`   // failing write accepts this many bytes first
 	// atlas
-	BaseURL string `json:"base_url,omitempty"`
-	Pub     string `json:"pub,omitempty"`
-	Priv    string `json:"priv,omitempty"`
-	Project string `json:"project,omitempty"`
-	Cluster string `json:"cluster,omitempty"`
-	Start   int    `json:"start,omitempty"`
-	End     int    `json:"end,omitempty"`
+	BaseURL string   `json:"base_url,omitempty"`
+	Pub     string   `json:"pub,omitempty"`
+	Priv    string   `json:"priv,omitempty"`
+	Project string   `json:"project,omitempty"`
+	Cluster string   `json:"cluster,omitempty"`
+	Start   int      `json:"start,omitempty"`
+	End     int      `json:"end,omitempty"`
 	Files   []string `json:"files,omitempty"`
-	Path    string `json:"path,omitempty"`
+	Path    string   `json:"path,omitempty"`
 }
 
 type vaFailReader struct {
